@@ -12,6 +12,7 @@ mod ops_curve;
 mod ops_extra;
 mod ops_hash;
 mod ops_json;
+mod ops_robust;
 mod ops_scan;
 mod ops_txid;
 
@@ -56,6 +57,9 @@ fn run_line(line: &str) -> String {
         return r;
     }
     if let Some(r) = ops_json::run(op, &args) {
+        return r;
+    }
+    if let Some(r) = ops_robust::run(op, &args) {
         return r;
     }
     if let Some(r) = ops_scan::run(op, &args) {
